@@ -79,17 +79,26 @@ class Diagonal(LinearOperator):
         return self._diagonal
 
     @property
-    def T(self) -> Diagonal:
+    def T(self) -> LinearOperator:
         """Transpose of this :class:`Diagonal`."""
+        if self.input_shape != self.output_shape:
+            # broadcasting diagonal: not square, so not its own transpose
+            return super().T
         return self
 
     def conj(self) -> Diagonal:
         """Complex conjugate of this :class:`Diagonal`."""
-        return Diagonal(diagonal=self.diagonal.conj())
+        return Diagonal(
+            diagonal=self.diagonal.conj(),
+            input_shape=self.input_shape,
+            input_dtype=self.input_dtype,
+        )
 
     @property
-    def H(self) -> Diagonal:
+    def H(self) -> LinearOperator:
         """Hermitian transpose of this :class:`Diagonal`."""
+        if self.input_shape != self.output_shape:
+            return super().H
         return self.conj()
 
     @property
@@ -99,33 +108,45 @@ class Diagonal(LinearOperator):
         Return a new :class:`Diagonal` :code:`G` such that
         :code:`G(x) = A.adj(A(x)))`.
         """
-        return Diagonal(diagonal=self.diagonal.conj() * self.diagonal)
+        if self.input_shape != self.output_shape:
+            return super().gram_op
+        return Diagonal(
+            diagonal=self.diagonal.conj() * self.diagonal,
+            input_shape=self.input_shape,
+            input_dtype=self.input_dtype,
+        )
 
     @_wrap_add_sub
     def __add__(self, other):
         if self.diagonal.shape == other.diagonal.shape:
-            return Diagonal(diagonal=self.diagonal + other.diagonal)
+            return Diagonal(
+                diagonal=self.diagonal + other.diagonal, input_shape=self.input_shape
+            )
         raise ValueError(f"Incompatible shapes: {self.shape} != {other.shape}.")
 
     @_wrap_add_sub
     def __sub__(self, other):
         if self.diagonal.shape == other.diagonal.shape:
-            return Diagonal(diagonal=self.diagonal - other.diagonal)
+            return Diagonal(
+                diagonal=self.diagonal - other.diagonal, input_shape=self.input_shape
+            )
         raise ValueError(f"Incompatible shapes: {self.shape} != {other.shape}.")
 
     @_wrap_mul_div_scalar
     def __mul__(self, scalar):
-        return Diagonal(diagonal=self.diagonal * scalar)
+        return Diagonal(diagonal=self.diagonal * scalar, input_shape=self.input_shape)
 
     @_wrap_mul_div_scalar
     def __truediv__(self, scalar):
-        return Diagonal(diagonal=self.diagonal / scalar)
+        return Diagonal(diagonal=self.diagonal / scalar, input_shape=self.input_shape)
 
     def __matmul__(self, other):
         # self @ other
         if isinstance(other, Diagonal):
-            if self.shape == other.shape:
-                return Diagonal(diagonal=self.diagonal * other.diagonal)
+            if self.input_shape == other.output_shape:
+                return Diagonal(
+                    diagonal=self.diagonal * other.diagonal, input_shape=other.input_shape
+                )
             raise ValueError(f"Shapes {self.shape} and {other.shape} do not match.")
         else:
             return self(other)
@@ -240,7 +261,7 @@ class ScaledIdentity(Diagonal):
     def __matmul__(self, other):
         # self @ other
         if isinstance(other, Diagonal):
-            if self.shape != other.shape:
+            if self.input_shape != other.output_shape:
                 raise ValueError(f"Shapes {self.shape} and {other.shape} do not match.")
             if isinstance(other, ScaledIdentity):
                 return ScaledIdentity(
@@ -249,7 +270,9 @@ class ScaledIdentity(Diagonal):
                     input_dtype=self.input_dtype,
                 )
             else:
-                return Diagonal(diagonal=self._diagonal * other.diagonal)
+                return Diagonal(
+                    diagonal=self._diagonal * other.diagonal, input_shape=other.input_shape
+                )
         else:
             return self(other)
 
